@@ -116,6 +116,28 @@ def main():
     else:
         names = C.property_theorems(prop)
         au = {"obligations": len(names), "discharged": 0, "names": names, "axioms": {}, "modules": []}
+    # 3b. tie audit: which of the definitions the theorems speak about does the driver execute
+    # against the C++ (or the translator regenerate from it)?  A property whose theorems mention none is
+    # not tied to the code at all, whatever its proofs say.
+    tie = {}
+    if thm_ok and driver_ok and getattr(cfg, "DRIVER", None) is None and not a.replay:
+        ta = C.tie_audit(prop, au.get("names", []))
+        per = ta["per_theorem"]
+        tied = sorted(n for n, v in per.items() if v["executed"] or v["generated"])
+        tie = {
+            "theorems_about_executed_or_generated_definitions": len(tied),
+            "theorems_spec_level_only": sorted(n for n in per if n not in tied),
+            "executed_definitions_mentioned": sorted({d for v in per.values() for d in v["executed"]}),
+            "generated_definitions_mentioned": sorted({d for v in per.values() for d in v["generated"]}),
+            "spec_level_definitions_mentioned": sorted({d for v in per.values() for d in v["spec_level"]}),
+            "per_theorem": {n: {"executed": len(v["executed"]), "generated": len(v["generated"]), "spec_level": v["spec_level"]}
+                            for n, v in per.items()},
+        }
+        if ta["raw"]:
+            notes.append("tie audit incomplete: " + ta["raw"][-600:])
+        elif not tied:
+            problems.append({"kind": "audit", "detail": "tie audit: no property theorem mentions a definition that drv_%s executes or "
+                                                        "that is regenerated from the source" % prop, "theorem": "tie-audit"})
     checker = ["lake build %s ColoVerif.Properties.%s" % (driver, prop),
                "lake env lean <#print axioms for %d theorems>" % au["obligations"]]
     if tier == "thorough" and thm_ok:
@@ -268,6 +290,7 @@ def main():
         "samples": stats.get("samples", [])[:8] or ["<none>"],
         "traces_validated_against_impl": corr_lines,
         "distribution": stats.get("distribution", {}),
+        "tie_audit": tie,
         "partial_clauses": getattr(cfg, "PARTIAL", []),
         "known_findings_hit": kf_hits,
         "generated": gen_info,
